@@ -101,7 +101,7 @@ Finished ==
     /\ draining' = [w \in Worker |-> FALSE] /\ down' = [w \in Worker |-> FALSE]
     /\ now' = 0 /\ pc' = [t \in Thr |-> "idle"] /\ rq' = [t \in Thr |-> NoReq]
     /\ op' = [pc |-> "idle", w |-> "-"] /\ cnt' = [req |-> 0, ops |-> 0, reaps |-> 0]
-    /\ UNCHANGED hist
+    /\ UNCHANGED <<hist, how>>
 
 TInit == Init /\ ti = 1 /\ i = 1 /\ TLCSet(2, 0)
 TNext == Step \/ Finished
